@@ -10,8 +10,8 @@ func VerifHarness_Layout() {
 	L := verifGen()
 	findings := verifParam("findings")
 	if findings == 0 {
-		// the job list never combines findings=0 with cind < 2 on a layout that has continuation lines
-		verifAssume(!L.headHit)
+		// (until F36 was repaired this branch assumed !L.headHit; a header byte equal to the first value byte is
+		// now part of every job)
 	} else {
 		verifSig("C06-block-header-match", L.headHit)
 		verifSig("C06-shallow-continuation", L.shallow)
